@@ -14,6 +14,7 @@
   (`rowSpec`: scatter of slice `i`); `transposeDense` — its transpose.
 -/
 import CTM.Lemmas.SparseV2
+import CTM.Lemmas.SparseFlat
 import CTM.Generated.SparseConsts
 
 namespace CTM.C13
@@ -99,6 +100,26 @@ theorem transpose_buckets {α} (M : Mat α) (sl : Option (Nat × Nat)) (csrIndpt
 
 example : (transposeEntries (entriesOf M0) none [0, 2, 3, 5] 2 1).map (·.val)
     = [1, 4, 3, 2, 5] := by decide
+
+/-- **flat-array level** (DESIGN §5 C13, level 2) — *"fill pass writes bounded
+blocks of major slices using a running next-free-slot table"*: the same loops
+with the code's addressing — per block a zeroed buffer of `d1 - d0` cells, the
+group of one load chunk for minor index `v` written at `next_idx[v] - d0`, then
+`next_idx[v] += ct`, the buffer written to the output at `[d0, d1)` — produce,
+for every load-chunk size `≥ 1`, every element budget and every index
+sub-range, exactly the arrays of the bucket-level model `transposeOnDisk`
+(the counting-sort invariant `next_idx[v] = indptr[v] + #written(v)`, groups
+never overlap, every output cell is written exactly once).  Everything proved
+below for `transposeOnDisk` therefore holds for the flat-array version. -/
+theorem transpose_flat {α} (zero : α) (M : Mat α) (indicesMax : Nat)
+    (sl : Option (Nat × Nat)) (B : Budget)
+    (hlo : 1 ≤ B.lo) (hc : 1 ≤ B.loCount) (hlen : M.data.length = M.indices.length)
+    (hr : ∀ x ∈ sliceMinors sl M.indices, x < nMinorOf indicesMax sl) :
+    transposeOnDiskFlat zero M indicesMax sl B = transposeOnDisk M indicesMax sl B :=
+  transposeOnDiskFlat_eq zero M indicesMax sl B hlo hc hlen hr
+
+example : transposeOnDiskFlat 0 M0 3 none ⟨2, 2, 1⟩
+    = .ok ⟨[0, 2, 3, 5], [0, 2, 1, 0, 2], [1, 4, 3, 2, 5]⟩ := rfl
 
 /-- **counting pass** (`_calculate_csr_indptr`): for every load-chunk size
 `≥ 1` and every index sub-range the pointer array is
